@@ -26,7 +26,10 @@ RULE = ("set-up (all subs): 1-5 dimensions (4-5 in ~40%, with few points per dim
         "grid. Non-trivial = some dimension has a non-Uniform distribution and a non-equidistant grid with >= 6 points. "
         "midpoint: one interval (the support, a tree path of L/R choices of depth <= 20, or two arbitrary quantiles) of a "
         "1-5 dimensional set-up, midpoint taken in a drawn dimension; non-trivial = non-Uniform family, primary (ppf) "
-        "branch taken, P(interval) >= 1e-6. moments: a vector model (1-2 nowhere-exact base components, 1-3 affine images "
+        "branch taken, P(interval) >= 1e-6. moments: the model is a user Function subclass whose eval returns its values as "
+        "Python float (scalar model) / list / tuple / fresh float64 ndarray / float64 ndarray kept in the model's own table "
+        "and handed out again (table must be unchanged afterwards) / float32 ndarray / int64 ndarray (integer valued model), "
+        "output length 1-7, model cache on/off; a vector model (1-2 nowhere-exact base components, 1-3 affine images "
         "c*f+e, the constants 1 and K) is integrated by SpatiallyAdaptiveSingleDimensions2 on the weighted grid (d 1-5; "
         "d>=4 with lmin=1, lmax=2 and <=3 steps; lmin 1-2, versions 6/2/3/7/8, rebalancing, volume weighting on/off) driven by a scripted decision tape for up to "
         "8 steps; the moment identities AND the weight clauses for the 1D grids of the component grid evaluated last are "
@@ -61,6 +64,10 @@ ASSUMPTIONS = [
     "all tolerances of the harness are scale free: probabilities and weights are dimensionless, grid separations and the "
     "fallback-feasibility bound are relative to the interval / coordinate magnitude, moment tolerances relative to the "
     "magnitude of the moments; class counters parameter-scale=s, min-interval-width<1e-12",
+    "moment signatures carry the suffix /model-returns=<form>; float32 models: identities to 1e-5 relative (the library "
+    "squares float32 values in float32), constants to 1e-6; int models use integer c, e, K and 8*f rounded; output "
+    "length 1 has no constant-1 component: S = 1 is assumed and the bounds are widened by the allowed weight-sum deviation; "
+    "class counters model-returns=, output-length=, model-cache=",
     "class counters: dims=4+, distinct=k, pattern-with-repeat, pattern-with-late-repeat (a repeated entry whose first "
     "occurrence is not at the index equal to the number of distinct entries before it, e.g. [A,A,B,B])",
 ]
@@ -554,49 +561,152 @@ def run_midpoint(case):
 # ------------------------------------------------------------------------------------------------------------
 # sub-check 3: moments
 # ------------------------------------------------------------------------------------------------------------
-def judge_moments(out, sub, E, V, layout, tol_s, tag=""):
-    """layout = dict(nb=number of base comps, affine=[(j, c, e)], one=index, const=(index, K)); affine image k is
-    component nb+k. E, V = what calculate_expectation_and_variance returned."""
+RETURN_FORMS = ["ndarray", "list", "ndarray-kept", "tuple", "float32", "int", "float"]
+
+
+def judge_moments(out, sub, E, V, layout, tol_s, tag="", rel=1e-9, suffix=""):
+    """layout = dict(nb=number of base comps, affine=[(j, c, e)], one=index or None, const=(index, K) or None); affine
+    image k is component nb+k. E, V = what calculate_expectation_and_variance returned. rel = relative tolerance of the
+    identities (1e-9; 1e-5 for a float32 model whose squares the library forms in float32). Without a constant-1
+    component S = 1 is assumed and every bound is widened by the allowed deviation tol_s of the weight sum.
+    suffix = '/model-returns=<form>' appended to every signature."""
     E = np.asarray(E, dtype=float).ravel()
     V = np.asarray(V, dtype=float).ravel()
-    ncomp = layout["nb"] + len(layout["affine"]) + 2
+    has_one = layout["one"] is not None
+    ncomp = layout["nb"] + len(layout["affine"]) + int(has_one) + int(layout["const"] is not None)
+    relc = max(rel * 0.1, 1e-10)          # constants: 1e-10 (see below), 1e-6 for float32
     if len(E) != ncomp or len(V) != ncomp:
-        out.bad(sub + "/shape", "%s %d expectations, %d variances for %d components" % (tag, len(E), len(V), ncomp))
+        out.bad(sub + "/shape" + suffix, "%s %d expectations, %d variances for %d components" % (tag, len(E), len(V), ncomp))
         return
     if not (np.all(np.isfinite(E)) and np.all(np.isfinite(V))):
-        out.bad(sub + "/not-finite", "%s E=%s V=%s" % (tag, E, V))
+        out.bad(sub + "/not-finite" + suffix, "%s E=%s V=%s" % (tag, E, V))
         return
-    S = float(E[layout["one"]])
-    out.info["max_S_dev"] = max(out.info.get("max_S_dev", 0.0), abs(S - 1.0))
-    if not abs(S - 1.0) <= tol_s:
-        out.bad(sub + "/sum-of-weights", "%s E[1] = %.12g" % (tag, S))
+    if has_one:
+        S = float(E[layout["one"]])
+        slack = 0.0
+        out.info["max_S_dev"] = max(out.info.get("max_S_dev", 0.0), abs(S - 1.0))
+        if not abs(S - 1.0) <= tol_s:
+            out.bad(sub + "/sum-of-weights" + suffix, "%s E[1] = %.12g" % (tag, S))
+    else:
+        S, slack = 1.0, tol_s
     if np.any(V < 0.0):
-        out.bad(sub + "/variance-negative", "%s Var = %s" % (tag, V))
+        out.bad(sub + "/variance-negative" + suffix, "%s Var = %s" % (tag, V))
     for k, (j, c, e) in enumerate(layout["affine"]):
         t = layout["nb"] + k
         want = c * E[j] + e * S
         scale = 1.0 + abs(c * E[j]) + abs(e)
         dev = abs(E[t] - want)
-        out.info["max_E_affine_dev_rel"] = max(out.info.get("max_E_affine_dev_rel", 0.0), dev / scale)
-        if not dev <= 1e-9 * scale:
-            out.bad(sub + "/expectation-affine", "%s E[%g f%d + %g] = %.15g, c E[f] + e S = %.15g" % (tag, c, j, e, E[t], want))
+        out.info["max_E_affine_dev_rel"] = max(out.info.get("max_E_affine_dev_rel", 0.0), dev / scale / (rel / 1e-9))
+        if not dev <= (rel + slack) * scale:
+            out.bad(sub + "/expectation-affine" + suffix, "%s E[%g f%d + %g] = %.15g, c E[f] + e S = %.15g" % (tag, c, j, e, E[t], want))
         wantv = c * c * V[j] + (2 * c * e * E[j] + e * e * S) * (1.0 - S)
         scale = 1.0 + (V[t] + E[t] ** 2) + c * c * (V[j] + E[j] ** 2)
         dev = abs(V[t] - wantv)
-        out.info["max_Var_affine_dev_rel"] = max(out.info.get("max_Var_affine_dev_rel", 0.0), dev / scale)
-        if not dev <= 1e-9 * scale:
-            out.bad(sub + "/variance-affine", "%s Var[%g f%d + %g] = %.15g, c^2 Var[f] = %.15g" % (tag, c, j, e, V[t], wantv))
-    for idx, K in ((layout["one"], 1.0), layout["const"]):
+        out.info["max_Var_affine_dev_rel"] = max(out.info.get("max_Var_affine_dev_rel", 0.0), dev / scale / (rel / 1e-9))
+        if not dev <= (rel + 3 * slack) * scale:
+            out.bad(sub + "/variance-affine" + suffix, "%s Var[%g f%d + %g] = %.15g, c^2 Var[f] = %.15g" % (tag, c, j, e, V[t], wantv))
+    consts = ([(layout["one"], 1.0)] if has_one else []) + ([layout["const"]] if layout["const"] is not None else [])
+    for idx, K in consts:
         dev = abs(E[idx] - K * S)
-        out.info["max_const_E_rel"] = max(out.info.get("max_const_E_rel", 0.0), dev / abs(K))
+        out.info["max_const_E_rel"] = max(out.info.get("max_const_E_rel", 0.0), dev / abs(K) / (relc / 1e-10))
         # 1e-10: the combination sums up to ~100 component grids with coefficients +-1..3 over up to 3500 points;
-        # rounding seen on the unchanged tree 5e-13 (variance, relative to K^2) and 2e-13 (expectation)
-        if not dev <= 1e-10 * abs(K):
-            out.bad(sub + "/constant-expectation", "%s E[%g] = %.15g with S = %.15g" % (tag, K, E[idx], S))
-        lim = 1e-10 * K * K + K * K * abs(S) * abs(1.0 - S)
-        out.info["max_const_var_rel"] = max(out.info.get("max_const_var_rel", 0.0), V[idx] / (K * K))
+        # rounding seen on the unchanged tree 8e-13 (variance, relative to K^2) and 3e-13 (expectation)
+        if not dev <= (relc + slack) * abs(K):
+            out.bad(sub + "/constant-expectation" + suffix, "%s E[%g] = %.15g with S = %.15g" % (tag, K, E[idx], S))
+        lim = (relc + 3 * slack) * K * K + K * K * abs(S) * abs(1.0 - S)
+        out.info["max_const_var_rel"] = max(out.info.get("max_const_var_rel", 0.0), V[idx] / (K * K) / (relc / 1e-10))
         if not V[idx] <= lim:
-            out.bad(sub + "/constant-variance", "%s Var[%g] = %.3e" % (tag, K, V[idx]))
+            out.bad(sub + "/constant-variance" + suffix, "%s Var[%g] = %.3e" % (tag, K, V[idx]))
+
+
+def make_model(comps, form):
+    """A user model: Function subclass whose eval returns its values in the drawn form.
+    comps = scalar callables (already integer valued for form 'int')."""
+    from sparseSpACE.Function import Function
+    n = len(comps)
+
+    class UserModel(Function):
+        def __init__(self):
+            super().__init__()
+            self.table = {}                      # the model's own lookup table (form 'ndarray-kept')
+            self.calls = 0
+
+        def output_length(self):
+            return n
+
+        def values(self, x):
+            return [float(g(x)) for g in comps]
+
+        def eval(self, coordinates):
+            self.calls += 1
+            x = tuple(float(c) for c in coordinates)
+            v = self.values(x)
+            if form == "float":
+                return v[0]
+            if form == "list":
+                return v
+            if form == "tuple":
+                return tuple(v)
+            if form == "ndarray":
+                return np.array(v, dtype=np.float64)
+            if form == "ndarray-kept":
+                if x not in self.table:
+                    self.table[x] = np.array(v, dtype=np.float64)
+                return self.table[x]             # the very same array object on every request
+            if form == "float32":
+                return np.array(v, dtype=np.float32)
+            if form == "int":
+                return np.array([int(round(t)) for t in v], dtype=np.int64)
+            raise ValueError(form)
+
+    return UserModel()
+
+
+def build_model(case, dim, base):
+    """components, layout and the effective (c, e, K) for the drawn output length and return form"""
+    form = case.get("ret", "list")
+    L = case.get("L", 0)
+    if form == "float" and L != 1:
+        form = "list"
+    integer = form == "int"
+
+    def eff(v, zero_ok=True):
+        if not integer:
+            return float(v)
+        r = float(round(v))
+        return r if (zero_ok or r != 0.0) else 7.0
+    if integer:                                   # integer valued base components
+        base = [(lambda g: (lambda x: float(round(8.0 * g(x)))))(g) for g in base]
+    K = eff(case["K"], zero_ok=False)
+    pairs = [(eff(c), eff(e)) for c, e in case["affine"]]
+    nb = case["nb"]
+    if L == 0:                                    # full layout: nb base comps, their affine images, 1, K
+        pass
+    elif L == 1:
+        nb, pairs = (1, []) if case.get("l1", "f") == "f" else (0, [])
+    elif L == 2:
+        nb, pairs = 1, []
+    else:
+        nb, pairs = 1, pairs[:1]
+    base = base[:nb]
+    comps = list(base)
+    affine = []
+    for k, (c, e) in enumerate(pairs):
+        j = k % nb
+        affine.append((j, c, e))
+        comps.append((lambda g, c, e: (lambda x: c * g(x) + e))(base[j], c, e))
+    one = const = None
+    if L == 0 or L >= 2:
+        one = len(comps)
+        comps.append(lambda x: 1.0)
+    if L == 0 or L == 4 or (L == 1 and nb == 0):
+        const = (len(comps), K)
+        comps.append(lambda x: K)
+    if form == "float32":                         # the values the library sees are the float32 roundings
+        if const is not None:
+            const = (const[0], float(np.float32(K)))
+    layout = dict(nb=nb, affine=affine, one=one, const=const)
+    return comps, layout, form
 
 
 def run_moments(case):
@@ -616,17 +726,13 @@ def run_moments(case):
     def in_units(g):
         return lambda x: g([(x[d] - loc[d]) / wid[d] for d in range(dim)])
     base = [in_units(drive.driver_function(dim, case["fseed"] + 17 * j)) for j in range(nb)]
-    comps = list(base)
-    affine = []
-    for k, (c, e) in enumerate(case["affine"]):
-        j = k % nb
-        affine.append((j, float(c), float(e)))
-        comps.append((lambda g, c, e: (lambda x: c * g(x) + e))(base[j], float(c), float(e)))
-    K = float(case["K"])
-    comps.append(lambda x: 1.0)
-    comps.append(lambda x: K)
-    layout = dict(nb=nb, affine=affine, one=len(comps) - 2, const=(len(comps) - 1, K))
-    f = drive.vector_function(comps)
+    comps, layout, form = build_model(case, dim, base)
+    suffix = "/model-returns=" + form
+    rel = 1e-5 if form == "float32" else 1e-9
+    f = make_model(comps, form)
+    if not case.get("cache", True):
+        f.deactivate_caching()
+    out.cls("model-returns=" + form, "output-length=%d" % len(comps), "model-cache=%s" % case.get("cache", True))
     op, grid, refs, a, b = lib_setup(specs, case["boundary"], f=f, string_form=case.get("string_form", False))
     op.set_grid(grid)
     op.set_expectation_variance_Function()
@@ -642,7 +748,7 @@ def run_moments(case):
         st_["evals"] += 1
         with quiet():
             E, V = op.calculate_expectation_and_variance(sa)
-        judge_moments(out, sub, E, V, layout, tol_s, "after evaluation %d:" % k)
+        judge_moments(out, sub, E, V, layout, tol_s, "after evaluation %d:" % k, rel=rel, suffix=suffix)
         # the 1D grids of the component grid evaluated last are refinement-tree grids produced by the real history
         # (including rebalancing): the weight clauses apply to them as well
         for d in range(dim):
@@ -688,15 +794,23 @@ def run_moments(case):
         with quiet():
             E, V = op.calculate_expectation_and_variance(sa)
             Ea, Va = op.calculate_expectation_and_variance(sa, use_combiinstance_solution=False)
-        judge_moments(out, sub + "/nodes-and-weights-path", Ea, Va, layout, tol_s, "use_combiinstance_solution=False:")
+        judge_moments(out, sub + "/nodes-and-weights-path", Ea, Va, layout, tol_s, "use_combiinstance_solution=False:",
+                      rel=rel, suffix=suffix)
         E, V, Ea, Va = (np.asarray(x, dtype=float).ravel() for x in (E, V, Ea, Va))
         if len(Ea) == len(E):
             devE = float(np.max(np.abs(E - Ea) / (1.0 + np.abs(E))))
             devV = float(np.max(np.abs(V - Va) / (1.0 + V + E * E)))
-            out.info["max_path_dev_rel"] = max(devE, devV)
-            if not (devE <= 1e-9 and devV <= 1e-9):
-                out.bad(sub + "/nodes-and-weights-path/differs-from-combined-moments",
+            out.info["max_path_dev_rel"] = max(devE, devV) / (rel / 1e-9)      # in units of the 1e-9 tolerance scale
+            if not (devE <= rel and devV <= rel):
+                out.bad(sub + "/nodes-and-weights-path/differs-from-combined-moments" + suffix,
                         "E %s vs %s ; Var %s vs %s" % (E, Ea, V, Va))
+    if form == "ndarray-kept":
+        # the arrays belong to the model: the library may read them, never write them
+        changed = [(x, arr.tolist(), f.values(x)) for x, arr in f.table.items() if arr.tolist() != f.values(x)]
+        if changed:
+            out.bad(sub + "/model-table-modified" + suffix, "%d of %d arrays handed out by the model were changed, e.g. at %s: now %s, handed out %s"
+                    % (len(changed), len(f.table), changed[0][0], changed[0][1], changed[0][2]))
+        out.info["max_model_table_entries"] = len(f.table)
     npts = [len(drive.dw_points(sa, d)) for d in range(dim)]
     scale_classes(out, specs, [[float(x) for x in drive.dw_points(sa, d)] for d in range(dim)])
     nonuni = any(refs[d].fam != "Uniform" and npts[d] >= 6 for d in range(dim))
@@ -845,6 +959,9 @@ def moments_strategy(tier):
             lmin, lmax = 1, 2
             steps = [1, 1, 2, 3]
         hi = {1: 60, 2: 220, 3: 260, 4: 200, 5: 200}[dim] * (2 if tier == "thorough" else 1)
+        ret = draw(st.sampled_from(RETURN_FORMS))
+        # a Python float can only be returned by a scalar model (output length 1)
+        L = 1 if ret == "float" else draw(st.sampled_from([0, 0, 0, 1, 2, 3, 4, 4]))
         return dict(entries=entries, pattern=pattern, boundary=boundary, string_form=draw(st.booleans()),
                     lmin=lmin, lmax=lmax,
                     version=draw(st.sampled_from([6, 6, 6, 2, 3, 7, 8])), rebalancing=draw(st.booleans()),
@@ -855,7 +972,10 @@ def moments_strategy(tier):
                     affine=draw(st.lists(st.tuples(st.sampled_from([2.5, -1.0, 0.5, -3.0, 10.0, 0.0, 1e-3, 1.0]),
                                                    st.sampled_from([-1.25, 0.0, 3.0, 100.0, -0.5])).map(list),
                                          min_size=1, max_size=3)),
-                    K=draw(st.sampled_from([3.0, -2.0, 1e3, 0.1])))
+                    K=draw(st.sampled_from([3.0, -2.0, 1e3, 0.1])),
+                    # the user model: output length (0 = full layout nb + affine + 2, i.e. 4..7), form of the value
+                    # returned by eval, value cache of the model on/off
+                    L=L, l1=draw(st.sampled_from(["f", "const"])), ret=ret, cache=draw(st.sampled_from([True, True, False])))
     return s()
 
 
@@ -919,6 +1039,19 @@ def selftest():
         o = Outcome()
         judge_moments(o, "t", E, V, lay, 1e-6)
         assert [s for s, _ in o.violations] == [sig], (sig, o.violations)
+    # layouts without a constant-1 component (output length 1): S = 1 is assumed within tol_s
+    o = Outcome()
+    judge_moments(o, "t", [7.0 * (1 + 5e-7)], [1e-9], dict(nb=0, affine=[], one=None, const=(0, 7.0)), 1e-6, suffix="/model-returns=float")
+    assert not o.violations, o.violations
+    judge_moments(o, "t", [49.0], [2352.0], dict(nb=0, affine=[], one=None, const=(0, 7.0)), 1e-6, suffix="/model-returns=ndarray")
+    assert sorted(s for s, _ in o.violations) == ["t/constant-expectation/model-returns=ndarray", "t/constant-variance/model-returns=ndarray"], o.violations
+    # the user model hands out its values in every form with the right length; the kept form returns the same object
+    for form in RETURN_FORMS:
+        m = make_model([lambda x: 2.0] if form == "float" else [lambda x: 2.0, lambda x: x[0]], form)
+        v = m((0.5,))
+        assert list(v) == ([2.0] if form == "float" else [2.0, 0.0 if form == "int" else 0.5]), (form, v)
+    m = make_model([lambda x: 2.0, lambda x: x[0]], "ndarray-kept")
+    assert m.eval((0.5,)) is m.eval((0.5,))
     # the library on a closed-form case: Uniform(0,1), grid [0,.25,1]
     o = run_weights(dict(dims=[dict(fam="Uniform", a=0.0, b=1.0)], boundary=True, far=False,
                          grids=[dict(kind="sorted", by="position", cluster=False, qs=[0.25])]))
